@@ -139,7 +139,9 @@ Definition corr (c : case) : bool :=
   let o := c_obs c in
   (* the model is a pure function of its input; the four failure definitions are four
      distinct Define calls, so errors.Is answers exactly the class (C01) *)
-  uo_unchanged o && list_eqb Bool.eqb (uo_is o) (map (str_eqb (uo_class o)) classes) &&
+  (* ... and so is everything observable of the result: repeated unmarshalings and typed lookups through every
+     key leave it as it was *)
+  uo_unchanged o && uo_stable o && list_eqb Bool.eqb (uo_is o) (map (str_eqb (uo_class o)) classes) &&
   match model_res c with
   | UOk e => str_eqb (uo_class o) "ok" &&
              match uo_res o with Some oe => orerr_eqb oe (orerr_of e) | None => false end
